@@ -107,7 +107,10 @@ def corrupt(rng, lines, kind):
     if kind == 'no-variant':
         i = rng.choice(code_idx)
         ins = rng.choice(['nop 5', 'inr 7', 'ldi', 'ldi 1, 2', 'mv2 a', 'jmp [sp+1]', 'sel notakey', 'inr [a]', 'ldx sp', 'nib a', 'q4 1',
-                          'mv2 5, a', 'lix a+1'])
+                          'mv2 5, a', 'lix a+1',
+                          # stray commas: an empty position in the operand list is not "no operand"
+                          'mv2 a,,1', 'mv2 a, 1,', 'mv2 ,a, 1', 'inr a,', 'nop ,', 'ldi 5,', 'ldi ,5', 'mv2 a, ,1', 'inr ,', 'ldi ,',
+                          'mv2 a,, 1', 'inr a ,'])
         L.insert(i, ins)
         return L, 'no-variant-accepts', pos_tag(i)
     if kind == 'value-overflow':
